@@ -9,6 +9,7 @@ import Uom.Proofs.OracleSound
 import Uom.Proofs.BodyEq.Powi
 import Uom.Proofs.BodyEq.UnitMac
 import Uom.Proofs.BodyEq.LibConst
+import Uom.Proofs.DurPowOracleSound
 /-!
 # C03 — unit conversion on construction and read-back is numerically faithful (floats)
 
@@ -218,6 +219,29 @@ theorem src_from_base (N : NumTy) (env : Env N) (v : N.S.V) :
   BodyEq.from_base_eq N env v
 
 end SourceTie
+
+/-! ### the `pow` oracle accepts the model (and why its first version could not be proved sound) -/
+
+/-- the factors of the base-unit combination: `flPowi` is within `powErr e` roundings of `c ^ e` whenever the
+    intermediates are normal (`powErr e = |e| − 1`, `2|e| − 1` for negative exponents: an early rounding error is
+    squared by every later squaring) … -/
+theorem powi_accuracy (f : Fmt) (hp : 1 ≤ f.p) (c : Fl) (hc : c.isFinite = true) (e : Int) (he : e.natAbs < 2 ^ 64)
+    (hN : DurPowOracleSound.PowNormal f c e) :
+    Proofs.Approx (Proofs.uro f) (powErr e) (flPowi f c e).toRat (c.toRat ^ e) :=
+  DurPowOracleSound.flPowi_approx hp c hc e he hN
+
+/-- … so the oracle of the `pow` lines never rejects the model -/
+theorem oracle_accepts_pow_f32 (c : Fl) (e : Int) (he : e.natAbs ≤ 2 ^ 20) (hN : DurPowOracleSound.PowNormal b32 c e) :
+    DurPowOracleSound.NotProp (oraclePowFl b32 c e (flPowi b32 c e)) := DurPowOracleSound.oraclePowFl_sound_b32 c e he hN
+theorem oracle_accepts_pow_f64 (c : Fl) (e : Int) (he : e.natAbs < 2 ^ 31) (hN : DurPowOracleSound.PowNormal b64 c e) :
+    DurPowOracleSound.NotProp (oraclePowFl b64 c e (flPowi b64 c e)) := DurPowOracleSound.oraclePowFl_sound_b64 c e he hN
+
+/-- the oracle as first written (tolerance = number of *operations* of the by-squaring loop) rejected the
+    model's own result: binary32, `c = 1 + 2⁻¹²`, `e = 64` (kernel-evaluated); the repaired one accepts it -/
+theorem pow_oracle_old_rejected_the_model :
+    DurPowOracleSound.isProp (oraclePowFlOld b32 (Fl.ofBits b32 0x3f800800) 64 (flPowi b32 (Fl.ofBits b32 0x3f800800) 64)) = true ∧
+    DurPowOracleSound.isProp (oraclePowFl b32 (Fl.ofBits b32 0x3f800800) 64 (flPowi b32 (Fl.ofBits b32 0x3f800800) 64)) = false :=
+  ⟨DurPowOracleSound.oraclePowFlOld_false_alarm_b32_64, DurPowOracleSound.oraclePowFl_accepts_witnesses.1⟩
 
 /-! ### tie to the source: the float `ConversionFactor::powi` regenerated from /repo/src/lib.rs on this run -/
 section SourceTieRx
